@@ -29,13 +29,14 @@ type TStorm struct {
 	Rounds       int    `json:"rounds"`
 	MaxLifeS     int    `json:"max_life_s"`
 	PermTimeoutS int    `json:"perm_timeout_s"`
-	CloseAtRound int    `json:"close_at_round"` // -1: only at the end
-	DialDelayMs  int    `json:"dial_delay_ms"`  // the server's outbound dials (Connect) take this long
-	DropCtrl     bool   `json:"drop_ctrl"`      // clients sometimes close their control connection and come back
-	ListenErrors bool   `json:"listen_errors"`  // relay listeners sometimes fail in Accept
-	AcceptSpin   int    `json:"accept_spin"`    // the listener's Accept yields this often before it returns a connection
-	Dialers      int    `json:"dialers"`        // goroutines that open a fresh control connection every round (also while Server.Close runs)
-	TCPStorm     bool   `json:"tcp_storm"`      // format marker
+	CloseAtRound int    `json:"close_at_round"`     // -1: only at the end
+	DialDelayMs  int    `json:"dial_delay_ms"`      // the server's outbound dials (Connect) take this long
+	DropCtrl     bool   `json:"drop_ctrl"`          // clients sometimes close their control connection and come back
+	ListenErrors bool   `json:"listen_errors"`      // relay listeners sometimes fail in Accept
+	AcceptSpin   int    `json:"accept_spin"`        // the listener's Accept yields this often before it returns a connection
+	Dialers      int    `json:"dialers"`            // goroutines that open a fresh control connection every round (also while Server.Close runs)
+	LibAuth      bool   `json:"lib_auth,omitempty"` // the server authenticates with the library's LongTermTURNRESTAuthHandler
+	TCPStorm     bool   `json:"tcp_storm"`          // format marker
 }
 
 type tStormClient struct {
@@ -79,7 +80,7 @@ func runTStorm(t *testing.T, s *TStorm) (res stormResult) {
 }
 
 func runTStormInner(s *TStorm) (res stormResult) { //nolint:cyclop,gocyclo,maintidx
-	cfg := TConfig{AllocLifetimeS: 30, PermTimeoutS: s.PermTimeoutS, Deny: []int{3}}
+	cfg := TConfig{AllocLifetimeS: 30, PermTimeoutS: s.PermTimeoutS, Deny: []int{3}, LibAuth: s.LibAuth}
 	w, err := newTWorld(cfg) // no clients yet: the actors dial themselves
 	if err == nil && os.Getenv("VERIF_STORM_LOGFILE") != "" {
 		w.log.Keep = 1000000
@@ -104,13 +105,13 @@ func runTStormInner(s *TStorm) (res stormResult) { //nolint:cyclop,gocyclo,maint
 	}
 	srvAddr := &net.TCPAddr{IP: ServerIP4, Port: ServerPort}
 	sign := func(c *tStormClient, m *ref.Msg) []byte {
-		u := Users[c.user]
+		name, pass := cfg.credFor(Users[c.user])
 		mm := &ref.Msg{Method: m.Method, Class: m.Class, TxID: m.TxID, Attrs: append([]ref.Attr{}, m.Attrs...)}
-		mm.Add(ref.AttrUsername, []byte(u.Name))
+		mm.Add(ref.AttrUsername, []byte(name))
 		mm.Add(ref.AttrRealm, []byte(Realm))
 		mm.Add(ref.AttrNonce, []byte(c.nonce))
 
-		return ref.AddIntegrity(mm.Encode(), ref.LongTermKey(u.Name, Realm, u.Pass))
+		return ref.AddIntegrity(mm.Encode(), ref.LongTermKey(name, Realm, pass))
 	}
 	var wg sync.WaitGroup
 	for ci := 0; ci < s.NClients; ci++ {
@@ -424,6 +425,7 @@ func genTStorm(rt *rapid.T) *TStorm {
 	s.DropCtrl = rapid.Bool().Draw(rt, "dropCtrl")
 	s.Dialers = rapid.SampledFrom([]int{0, 1, 4, 8}).Draw(rt, "dialers")
 	s.AcceptSpin = rapid.SampledFrom([]int{0, 0, 50, 400, 2000}).Draw(rt, "acceptSpin")
+	s.LibAuth = rapid.Bool().Draw(rt, "libAuth")
 	s.ListenErrors = rapid.Bool().Draw(rt, "listenErrors")
 
 	return s
